@@ -118,6 +118,9 @@ C_NONE = ("c", None)
 C_TRUE = ("c", True)
 C_FALSE = ("c", False)
 
+MUTATORS = {"append", "extend", "insert", "pop", "remove", "clear", "update", "add", "discard", "setdefault", "popitem", "sort", "reverse",
+            "__setitem__", "__delitem__", "appendleft", "popleft", "extendleft", "rotate"}
+
 NODE_API = {"getAttributeValue", "__getitem__", "__setitem__", "setAttribute", "getChild", "getAllChildren", "addChild", "addChildren",
             "getData", "setData", "hasChildren", "removeAttribute", "__delitem__", "tagEquals", "require", "__str__", "__eq__", "__hash__"}
 
@@ -179,6 +182,9 @@ class Interp:
         self.sym = None               # optional sa.symbuf.SymExt: symbolic byte buffers / linear integers
         self.loop_unroll = 1          # while loops: number of iterations executed (1 = one generic iteration)
         self.maybe_falsy = None       # predicate on opaque values whose truthiness is not known (scenario scalars)
+        self.on_write = None          # optional write barrier: on_write(kind, target value, detail, ast node) for every store
+                                      # into an object field / element and every mutating call on a container
+        self.max_steps = MAX_STEPS
         self.models = {}              # Obj.id -> model object answering get / set / call / apply for a stand-in object
 
     # ------------------------------------------------------------------ atoms
@@ -426,6 +432,8 @@ class Interp:
             pure = False
         if pure:
             self.pure_depth += 1
+        if self.sym is not None:
+            saved_fn, self.sym.current_fn = getattr(self.sym, "current_fn", None), getattr(fn, "name", None)
         try:
             if isinstance(fn, ast.Lambda):
                 return self.expr(fn.body, env, depth + 1)
@@ -435,6 +443,8 @@ class Interp:
                 return r.v
             return C_NONE
         finally:
+            if self.sym is not None:
+                self.sym.current_fn = saved_fn
             if pure:
                 self.pure_depth -= 1
             if honest:
@@ -446,7 +456,7 @@ class Interp:
 
     def stmt(self, s, env, depth):
         self.steps += 1
-        if self.steps > MAX_STEPS:
+        if self.steps > self.max_steps:
             raise Budget()
         if isinstance(s, ast.Expr):
             if isinstance(s.value, ast.Constant):
@@ -547,6 +557,8 @@ class Interp:
             for t in s.targets:
                 if isinstance(t, ast.Subscript):
                     b = self.expr(t.value, env, depth)
+                    if self.on_write is not None:
+                        self.on_write("item", self.force(b), "del []", t)
                     if self.sym is not None and b[0] == "bufobj":
                         self.sym.delete(self, b, t.slice, env, depth)
                         continue
@@ -867,6 +879,8 @@ class Interp:
             b = self.force(self.expr(t.value, env, depth))
             k = self.expr(t.slice, env, depth) if not isinstance(t.slice, ast.Slice) else ("unk", "slice")
             kc = k if k[0] == "c" else None
+            if self.on_write is not None:
+                self.on_write("item", b, "[]=", t)
             if b[0] == "node":
                 if kc is not None:
                     b[1].attrs[kc[1]] = v
@@ -918,6 +932,8 @@ class Interp:
                 if setter is not None:
                     self.call_function(setter[1], setter[0], b, [v], {}, depth=depth + 1)
                     return
+            if self.on_write is not None:
+                self.on_write("attr", b, name2, node)
             o.fields[name2] = v
         elif b[0] == "node":
             n = b[1]
@@ -961,7 +977,7 @@ class Interp:
     # ------------------------------------------------------------------ expressions
     def expr(self, e, env, depth):
         self.steps += 1
-        if self.steps > MAX_STEPS:
+        if self.steps > self.max_steps:
             raise Budget()
         if e is None:
             return C_NONE
@@ -1811,6 +1827,9 @@ class Interp:
         if name in ("bytes", "bytearray") and a0 is not None and a0[0] == "list" and not (len(a0) > 2 and a0[2]) and len(args) == 1 \
                 and all(x[0] == "c" and isinstance(x[1], int) and not isinstance(x[1], bool) and 0 <= x[1] < 256 for x in a0[1]):
             return ("c", bytes(x[1] for x in a0[1]))
+        if name in ("str", "bytes", "bytearray", "int", "float", "bool") and a0 is None and not kwargs:
+            import builtins
+            return ("c", getattr(builtins, name)())         # the empty value of the type (a fresh, empty bytearray)
         if name in ("str", "int", "float", "bool", "bytes", "bytearray", "repr", "ord", "chr", "abs", "round", "hex", "format", "bin", "oct"):
             if a0 is not None and a0[0] == "c":
                 try:
@@ -1993,6 +2012,8 @@ class Interp:
     def method_call(self, recv, name, args, kwargs, env, depth, e):
         recv = self.force(recv, deref=True)
         k = recv[0]
+        if self.on_write is not None and name in MUTATORS and (k in ("list", "dict") or (k == "c" and isinstance(recv[1], (bytearray, list, dict, set)))):
+            self.on_write("call", recv, name, e)
         if self.sym is not None and k == "bufobj":
             return self.sym.method(self, recv, name, args, kwargs)
         if self.sym is not None and k == "lin" and name == "to_bytes":
@@ -2081,6 +2102,12 @@ class Interp:
                 l.extend(items if items is not None else [self.element_of(args[0])])
                 return C_NONE
             if name == "index":
+                a0_ = self.concrete(args[0]) if args and args[0][0] == "atom" else (args[0] if args else None)
+                if a0_ is not None and len(args) == 1 and not (len(recv) > 2 and recv[2]) and a0_[0] == "c" and all(x[0] == "c" for x in l):
+                    for i_, x in enumerate(l):
+                        if x[1] == a0_[1] and type(x[1]) is type(a0_[1]):
+                            return ("c", i_)
+                    raise _Raise(("ext", "ValueError", []), "ValueError: %r is not in list" % (a0_[1],))
                 return ("fn", "index", [recv] + list(args))
             if name == "pop":
                 if l and not args:
